@@ -1,5 +1,7 @@
 import AasVerif.Lemmas.SortedEmit
+import AasVerif.Lemmas.OutDir
 import AasVerif.Gen.SortSites
+import AasVerif.Gen.WriteSites
 import AasVerif.Props.C05
 import AasVerif.Props.C25
 /-!
@@ -22,7 +24,13 @@ collections by sorting before they emit.  The theorems state, for the models of
 * the regenerated skeleton tables `Gen/SortSites.lean` show the `sorted(…)` wrappers, the key
   function and the bucket order the models assume (`jsonschema_sites_sorted`, `xsd_skeleton`),
   and every place of the code base where the iteration order of a set is observable is one of
-  the classified, order-irrelevant ones (`set_iterations_classified`).
+  the classified, order-irrelevant ones (`set_iterations_classified`);
+* the output tree does not depend on what the output directory held before: the writing loop of
+  the back ends (`Model/OutDir.lean`) makes every owned path read the same for all histories and
+  leaves foreign files alone (`output_history_independent`); skipping a write is unobservable
+  exactly for byte equality (`skip_if_bytes_equal_unobservable`) and observable for a comparison
+  modulo line endings (`skip_if_equal_modulo_newlines_fails`); the regenerated table
+  `Gen/WriteSites.lean` shows that every back end writes unconditionally (`write_sites_unconditional`).
 
 The permutation invariance of `Hier.topo` (builder C05) and of the snippet-directory reading
 (builder C25) belong to C22 as well and are re-exported here by the maintainer.
@@ -237,6 +245,58 @@ def classifiedSetIterations : List (String × String × String × String) :=
 breaks this theorem and is then decided dynamically by the hash-seed runs of the oracle. -/
 theorem set_iterations_classified :
     ∀ s ∈ Gen.SortSites.setIterations, s ∈ classifiedSetIterations := by decide
+
+
+/-! ## The output directory: "regardless of pre-existing files" -/
+
+section OutDir
+open AasVerif.OutDir
+
+/-- After the writing loop, a path the run writes to holds the same bytes whatever the output
+directory held before (model of the `write_text` loop of every `<target>/main.py:execute`). -/
+theorem write_owned_history_independent (files : List (Text × Text)) (fs fs' : Fs) (p : Text)
+    (h : p ∈ files.map Prod.fst) :
+    read (writeAll fs files) p = read (writeAll fs' files) p :=
+  writeAll_agree files fs fs' p (Or.inl h)
+
+/-- A pre-existing file at a path the run does not write to is left as it was. -/
+theorem write_foreign_untouched (files : List (Text × Text)) (fs : Fs) (p : Text)
+    (h : p ∉ files.map Prod.fst) : read (writeAll fs files) p = read fs p :=
+  writeAll_foreign files fs p h
+
+/-- **History independence of the output tree**: every path reads as after a run into an empty
+directory if the run owns it, and as before the run otherwise. -/
+theorem output_history_independent (files : List (Text × Text)) (fs : Fs) (p : Text) :
+    read (writeAll fs files) p
+      = if p ∈ files.map Prod.fst then read (writeAll [] files) p else read fs p := by
+  by_cases h : p ∈ files.map Prod.fst
+  · simp only [h, if_true]; exact writeAll_agree files fs [] p (Or.inl h)
+  · simp only [h, if_false]; exact writeAll_foreign files fs p h
+
+/-- Leaving a file alone when it holds *exactly* the new bytes can not be observed in the tree. -/
+theorem skip_if_bytes_equal_unobservable (fs : Fs) (p c q : Text) :
+    read (writeUnless (fun old new => old == new) fs p c) q = read (writeFile fs p c) q :=
+  writeUnless_exact fs p c q
+
+/-- Negation witness for a lenient comparison: a helper that compares through `read_text()`
+(universal newlines) keeps a previous generation with CRLF line endings — the file `a` holding
+`x\r\n` survives the generation of `x\n`, which a run into an empty directory writes. -/
+theorem skip_if_equal_modulo_newlines_fails :
+    read (writeUnless sameModuloNewlines [([97], [120, 13, 10])] [97] [120, 10]) [97] = some [120, 13, 10]
+    ∧ read (writeUnless sameModuloNewlines [] [97] [120, 10]) [97] = some [120, 10] := by decide
+
+/-- *Table* (`Gen/WriteSites.lean`, regenerated from the source): every back end changes files at
+exactly one place, `execute`, by `<path>.write_text(<text>, encoding='utf-8')`; the function makes no
+file-system query (`exists`, `is_file`, `stat`, `read_text`, …) and hands the path to nothing but the
+error report — so `writeFile` is the model of each of them. -/
+theorem write_sites_unconditional :
+    Gen.WriteSites.writeSites.map (·.target)
+        = ["cpp", "csharp", "golang", "java", "jsonschema", "python", "typescript", "xsd"]
+    ∧ ∀ s ∈ Gen.WriteSites.writeSites,
+        s.function = "execute" ∧ s.call = "_.write_text(_, encoding='utf-8')" ∧ s.fsReads = []
+        ∧ s.pathPassedTo = ["run.write_error_report"] := by decide
+
+end OutDir
 
 
 /-! ## Order-independence of the passes proved for other properties (re-exported) -/
